@@ -380,6 +380,49 @@ fn case<T: DeserializeOwned + Serialize + 'static>(sink: &mut Sink, r: &mut Rng,
     sink.op(&format!("strreq-all-owned {}", ty), "true", reference.as_deref() != Some("reject"));
 }
 
+/// a document that is not text: one byte of the compact text replaced by a byte (sequence) that is no
+/// well-formed UTF-8 - a Latin-1 letter, a lone lead byte, a truncated or overlong sequence, a surrogate.
+/// Every channel that takes bytes decides alike (and none of them makes up a character for it).
+fn bytes_case<T: DeserializeOwned + Serialize + 'static>(sink: &mut Sink, r: &mut Rng, ty: &str, doc: &Value) {
+    fn show<T: Serialize, E>(r: Result<Result<T, E>, ()>) -> String {
+        match r {
+            Err(()) => "PANIC".into(),
+            Ok(Err(_)) => "reject".into(),
+            Ok(Ok(v)) => serde_json::to_value(&v).map(|j| j.to_string()).unwrap_or_else(|_| "unserialisable".into()),
+        }
+    }
+    let text = doc.to_string().into_bytes();
+    let letters: Vec<usize> = (0..text.len()).filter(|&i| text[i].is_ascii_alphanumeric()).collect();
+    if letters.is_empty() {
+        return;
+    }
+    let at = *r.pick(&letters);
+    let bad: &[u8] = *r.pick(&[&[0xe9u8][..], &[0xc3], &[0xff], &[0xe2, 0x82], &[0xc0, 0xaf], &[0xed, 0xa0, 0x80], &[0xf4, 0x90, 0x80, 0x80], &[0x80]]);
+    let mut b = text[..at].to_vec();
+    b.extend_from_slice(bad);
+    b.extend_from_slice(&text[at + 1..]);
+    let mut out: Vec<(&'static str, String)> = vec![];
+    out.push(("from_slice", show(guarded({ let b = b.clone(); move || serde_json::from_slice::<T>(&b) }))));
+    out.push(("from_reader", show(guarded({ let b = b.clone(); move || serde_json::from_reader::<_, T>(std::io::Cursor::new(b)) }))));
+    out.push(("Json::from_slice", show(guarded({ let b = b.clone(); move || Json::from_slice::<T>(&b) }))));
+    out.push(("Json::from_reader", show(guarded({ let b = b.clone(); move || Json::from_reader::<_, T>(std::io::Cursor::new(b)) }))));
+    out.push(("JsonPretty::from_slice", show(guarded({ let b = b.clone(); move || in_toto::interchange::JsonPretty::from_slice::<T>(&b) }))));
+    out.push(("Json::from_reader(1 byte at a time)", show(guarded({ let b = b.clone(); move || Json::from_reader::<_, T>(OneByte(b, 0)) }))));
+    if std::any::TypeId::of::<T>() == std::any::TypeId::of::<MetadataWrapper>() {
+        use in_toto::models::MetadataType;
+        out.push(("MetadataWrapper::try_from_bytes", show(guarded({ let b = b.clone(); move || MetadataWrapper::try_from_bytes(&b) }))));
+        out.push(("MetablockBuilder::from_raw_metadata", show(guarded({ let b = b.clone(); move || in_toto::models::MetablockBuilder::from_raw_metadata(&b).map(|x| x.build().metadata) }))));
+        out.push(("MetadataWrapper::from_bytes(either type)", show(guarded({ let b = b.clone(); move || MetadataWrapper::from_bytes(&b, MetadataType::Layout).or_else(|_| MetadataWrapper::from_bytes(&b, MetadataType::Link)) }))));
+    }
+    let replay = format!("decode {} bytes {}", ty, hex(&b));
+    let first = out[0].1.clone();
+    for (ch, a) in &out {
+        sink.oracle(a != "PANIC", "decoder panicked", &replay);
+        sink.oracle(*a == first, &format!("{}: {} decides differently than serde_json::from_slice on a document that is not well-formed UTF-8", ty, ch), &replay);
+    }
+    sink.stat(&format!("{}/not-utf8/{}", ty, if first == "reject" { "reject" } else { "accept" }));
+}
+
 pub fn run(cfg: &Cfg) {
     let mut sink = Sink::new(&cfg.out);
     let mut r = Rng::new(cfg.seed);
@@ -394,6 +437,12 @@ pub fn run(cfg: &Cfg) {
         let kj = serde_json::to_value(&link).unwrap();
         case::<LinkMetadata>(&mut sink, &mut r, "LinkMetadata", &kj);
         case::<MetadataWrapper>(&mut sink, &mut r, "MetadataWrapper(link)", &kj);
+        for _ in 0..3 {
+            bytes_case::<MetadataWrapper>(&mut sink, &mut r, "MetadataWrapper(link)", &kj);
+            bytes_case::<MetadataWrapper>(&mut sink, &mut r, "MetadataWrapper(layout)", &lj);
+            bytes_case::<LinkMetadata>(&mut sink, &mut r, "LinkMetadata", &kj);
+            bytes_case::<LayoutMetadata>(&mut sink, &mut r, "LayoutMetadata", &lj);
+        }
         if i % 4 == 0 {
             // documents whose `_type` member says one thing and whose members say another: a layout labelled
             // "link", a link labelled "layout", the members of both under either label, no label at all
